@@ -7,7 +7,7 @@ VERIF = os.path.dirname(os.path.dirname(os.path.abspath(__file__)))
 DRIVER = os.path.join(VERIF, "lean", ".lake", "build", "bin", "driver")
 DIGEXEC = os.path.join(VERIF, "harness", "digexec")
 
-EXTRA_KEYS = ("panicMsg", "dotText", "dotNames", "fatalMsg")
+EXTRA_KEYS = ("panicMsg", "dotText", "dotNames", "fatalMsg", "vizJoin")
 
 
 def _big_stack():
